@@ -168,6 +168,7 @@ struct E4 : Engine {
 			for(auto &s:servers) s.reset();
 		}
 		res.hash = simk::trace_hash();
+		res.counters["sim_seconds"] = (long long)((simk::now_us() - sp.start_time_s*1000000LL)/1000000);
 		simk::Stats st = simk::stats();
 		simk::end();
 		if(res.ok && conc){
